@@ -50,6 +50,9 @@ Fragment(d) ==
                                     EXCEPT !.needs1 = TRUE, !.loops = <<[names |-> <<Wd("_d2")>>, packets |-> <<<<Bare(C1("2"))>>, <<Bare(C1("4"))>>>>]>>]
       [] d = "dup_loop_header" -> [F(Wd("loop_") \o Sp \o Wd("_d1") \o Sp \o Wd("_d2") \o Sp \o Wd("_d1") \o <<EOL>> \o C1("1") \o Sp \o C1("2") \o Sp \o C1("3"), 41)
                                     EXCEPT !.loops = <<[names |-> <<Wd("_d1"), Wd("_d2")>>, packets |-> <<<<Bare(C1("1")), Bare(C1("2"))>>>>]>>]
+      \* ... the first occurrence spelled with capitals (names match by their normalised form whatever the order of spellings)
+      [] d = "dup_loop_header_case" -> [F(Wd("loop_") \o Sp \o <<"_", "D", "1">> \o Sp \o Wd("_d2") \o Sp \o Wd("_d1") \o <<EOL>> \o C1("1") \o Sp \o C1("2") \o Sp \o C1("3"), 41)
+                                          EXCEPT !.loops = <<[names |-> <<<<"_", "D", "1">>, Wd("_d2")>>, packets |-> <<<<Bare(C1("1")), Bare(C1("2"))>>>>]>>]
       \* a loop header ALL of whose names are duplicates: every column is parsed and dropped, no loop is made, parsing goes on
       [] d = "dup_loop_only" -> [F(Wd("loop_") \o Sp \o Name(1) \o <<EOL>> \o C1("1") \o Sp \o C1("2"), 41) EXCEPT !.needs1 = TRUE]
       [] d = "dup_loop_twice" -> [F(Wd("loop_") \o Sp \o Wd("_d1") \o Sp \o Wd("_d2") \o <<EOL>> \o C1("1") \o Sp \o C1("2") \o <<EOL>>
